@@ -43,6 +43,11 @@ def run(res, args):
                 failed.append(dict(info, role=r))
         return bool(failed), {'failed_probes': failed}, {'site': 'palette role table', 'role': failed[0]['role'] if failed else None}
     O.merge(res, O.c19_palette_roles(fns, consts), res.coverage, replay_pal, 'palette')
+
+    def replay_gad(ob, d):
+        rep, info = O.replay_color_gadget(d)
+        return rep, info, {'site': 'Color -> Gadget', 'probe': info['failed_probes'][0]['colour'] if info['failed_probes'] else None}
+    O.merge(res, O.c19_color_gadget(fns, consts), res.coverage, replay_gad, 'gadget')
     res.assumptions += [
         'Outside the claim: HashMap lookup + to_ascii_lowercase of the keyword path and unknown-name rejection as executed code (Kani ICE on hashbrown; decided only structurally on the MIR), alpha=255 for opaque colours (impl From<Color> for Gadget, HashMap::from)',
         "Qt's rule for the four listed hex forms is the independently written qt_hex() oracle in harness/color.rs",
